@@ -149,6 +149,20 @@ func init() {
 			h("cont.H_Modules", map[string]int{"order_schemes": 1}, map[string]int{"order_schemes": 2}, []string{"failed", "succeeded"}, 30, "three module-tree shapes (nesting depth 1..3, bare entries next to modules, nil entries) over four entries whose kinds are symbolic {valid add, keyed add, rejected add (nil constructor), duplicate add, nil, Remove[T], RemoveKeyed[T]}; a twin collection receives the flattened direct calls; verdicts, ModuleError chain (names outermost first, once per enclosing module), reachability of the cause, queries, Build verdict, constructor invocations and resolution classes compared"),
 		}},
 	)
+	webDesc := func(fw string) string {
+		return "godi's real " + fw + " ScopeMiddleware and Handle closures against a real provider: number of configured middlewares (0..2) and which one fails, default vs custom error handler, handler outcome (ok / panic), plain handler vs Handle[T], controller registered or not, PanicRecovery, scope creation failing (provider closed / initializer fault on the second request), Handle with or without a scope in the context; two sequential requests. One scope per request, same scope for middlewares (in order), handler and Handle, closed exactly once on every exit path, error handler instead of handler, Handle's handlers exclusive, panics swallowed iff recovery, per-request instances distinct"
+	}
+	web := func(mod, name string, cov []string, desc string) harnessSpec {
+		return harnessSpec{Name: name, Module: mod, Quick: map[string]int{"order_schemes": 1}, Thorough: map[string]int{"order_schemes": 2}, Covers: cov, Xval: 15, Desc: desc}
+	}
+	const webConcDesc = "two requests in flight at once through one middleware instance (two harness goroutines, the handler yields between two uses of its scope; every interleaving explored): no request loses or shares its scope or scoped instance, both scopes closed exactly once"
+	properties = append(properties,
+		propertySpec{ID: "C16", Harnesses: []harnessSpec{
+			web("harness_http", "webh.H_Http", []string{"request_done"}, webDesc("net/http")),
+			web("harness_gin", "webh.H_Gin", []string{"request_done"}, webDesc("gin (inside the real gin engine)")),
+			web("harness_gin", "webh.H_GinConc", []string{"both_served"}, webConcDesc),
+		}},
+	)
 	hc := h("cont.H_Conc", conc(1), conc(1), []string{"both_done"}, 10, concDesc)
 	hcb := h("cont.H_CloseInCallback", map[string]int{"order_schemes": 1}, map[string]int{"order_schemes": 2}, []string{"callback_closed"}, 10, cbDesc)
 	properties = append(properties,
